@@ -40,9 +40,12 @@ func init() {
 
 const c04RuleText = "stage U: all constant expression trees of depth<=2 (thorough: depth 3 over an 8-literal alphabet) over 35 literals, 4 unary and 19 binary operators, " +
 	"sub-trees merged by (untyped kind, go/constant representation, exact value); each tree evaluated by go/types (types.Eval) and by fast.Interp with OptKeepUntyped; " +
-	"stage T: each distinct result (+ boundary seeds) in 'var v T = e' and 'T(e)' for the 17 basic kinds and in *big.Int/*big.Rat/*big.Float contexts. " +
+	"stage T: each distinct result (+ boundary seeds) in 'var v T = e' and 'T(e)' for the 17 basic kinds and in *big.Int/*big.Rat/*big.Float contexts; " +
+	"stage F (freshness, c04_fresh.go): constants of every go/constant representation converted to the mutable targets *big.Int/*big.Rat/*big.Float and string constants converted to byte/rune slices (unnamed and named), " +
+	"in 26 site forms (var, conversion, assignment, return, argument, composite-literal element, send, multi-assignment, assignment to each place kind, interface, local/package-level/typed named constant); the site runs 3 times per call and " +
+	"the function is called again after each of 8 (slices: 4) in-place mutations of an earlier result: every value handed out must be exact and a distinct object, untouched values must stay exact. " +
 	"non-trivial = distinct (untyped kind, exact value) results of valid trees with at least one operator, distinct (operator, operand kinds, error class) of trees Go rejects, " +
-	"and distinct (value, context) pairs of stage T whose Go outcome is a rejection or a representation change (rounding, kind change, big conversion)"
+	"distinct (value, context) pairs of stage T whose Go outcome is a rejection or a representation change (rounding, kind change, big conversion), and distinct (form, target, constant) cases of stage F in which at least one mutation changed the mutated value"
 
 // ---------------------------------------------------------------------------
 // plan: the blocks of one tier
@@ -219,6 +222,9 @@ type c04World struct {
 	ir    *twin.Interp
 	decls int
 	big   bool
+	// stage F
+	fserial int
+	ftypes  map[*twin.Interp]map[string]bool
 }
 
 func (w *c04World) interp(needBig bool) *twin.Interp {
@@ -493,7 +499,7 @@ func c04Run(c *core.Ctx) {
 		defer pprof.StopCPUProfile()
 	}
 	w := &c04World{}
-	only := os.Getenv("VERIF_C04_ONLY") // debugging aid: "untyped", "typed" or "deep" restricts the run to one phase (the run is then marked non-exhaustive)
+	only := os.Getenv("VERIF_C04_ONLY") // debugging aid: "untyped", "typed", "fresh" or "deep" restricts the run to one phase (the run is then marked non-exhaustive)
 	if only != "" {
 		c.Cap("VERIF_C04_ONLY=" + only)
 	}
@@ -541,6 +547,12 @@ func c04Run(c *core.Ctx) {
 			w.checkTyped(c, p.o, v)
 		}
 	}
+	if only == "" || only == "fresh" {
+		w.runFresh(c, p.o)
+		if c.Expired() {
+			return
+		}
+	}
 	if only == "" || only == "untyped" {
 		if !runBlocks(c04Level1Blocks_, c04Depth2Blocks) {
 			return
@@ -561,6 +573,14 @@ func c04Replay(c *core.Ctx, raw json.RawMessage) {
 	var cas c04Case
 	if err := json.Unmarshal(raw, &cas); err != nil {
 		panic(err)
+	}
+	if cas.Stage == "fresh" {
+		var fc c04FCase
+		if err := json.Unmarshal(raw, &fc); err != nil {
+			panic(err)
+		}
+		c04FreshReplay(c, &fc)
+		return
 	}
 	o := newC04Oracle()
 	w := &c04World{}
